@@ -104,12 +104,32 @@ theorem vinv_copyFile {s : State} {D D' : Node} (V : VInv s D) (a b : Bytes) (Ps
   have hnd : norm (join Pd) = some Pd := Path.norm_join Pd (Path.norm_reduced b Pd hnb)
   have hsrc1 := Path.norm_cleanPath a Ps hna
   have hsrc2 := Path.norm_cleanPath _ Ps hsrc1
-  -- first resolution (in CopyFile)
+  have hPsne : Ps ≠ [] := by
+    rintro rfl
+    obtain ⟨k, hk⟩ := V.hd.dir
+    rw [hk] at hS; simp [abs, Node.lookup, Node.entry] at hS
+  have hsrcS : cleanPath a = join Ps := Path.cleanPath_of_norm a Ps hna hPsne
+  have hsrcS2 : cleanPath (join Ps) = join Ps :=
+    Path.cleanPath_of_norm _ Ps (Path.norm_join Ps (Path.norm_reduced a Ps hna)) hPsne
+  -- source and destination do not overlap
+  have hnov : overlaps (join Ps) (join Pd) = false := by
+    cases hov : overlaps (join Ps) (join Pd) with
+    | false => rfl
+    | true =>
+      exfalso
+      rcases overlaps_join Ps Pd (Path.norm_reduced a Ps hna) (Path.norm_reduced b Pd hnb) hPsne hne hov with h | h
+      · by_cases e : Ps = Pd
+        · rw [e, habs] at hS; cases hS
+        · exact hmk Ps (prefix_dropLast Ps Pd h e) d0 hS
+      · by_cases e : Pd = Ps
+        · rw [← e, habs] at hS; cases hS
+        · obtain ⟨r, rfl⟩ := h
+          have hr : r ≠ [] := fun e' => e (by simp [e'])
+          have := abs_parent_dir D Pd r hr (by rw [hS]; simp)
+          rw [habs] at this; cases this
+  -- the two resolutions of the source (in CopyFile, then in Copy)
   have r1 := src_resolves V a Ps d0 hsrc1 hS
-  -- the state handed to Copy: only the journal differs
-  let s1 : State := { s with write := jadd s.write (join Pd) }
-  have V1 : VInv s1 D := ⟨V.hb, V.hr, V.hd, V.compat, V.eq⟩
-  have r2 := src_resolves V1 (cleanPath a) Ps d0 hsrc2 hS
+  have r2 := src_resolves V (cleanPath a) Ps d0 hsrc2 hS
   -- the write into the buffer
   have hw := root_writer s.buffer V.hb (join Pd) (ioChunks d0) Pd hnd
   obtain ⟨hres, hst⟩ : (Root.writer s.buffer (join Pd) (ioChunks d0)).2 = .ok
@@ -121,7 +141,8 @@ theorem vinv_copyFile {s : State} {D D' : Node} (V : VInv s D) (a b : Bytes) (Ps
     hw.2.1.inv V.hb (Path.norm_plain _ Pd hnd)
   -- unfold the three layers
   have hcf : copyFile s a b
-      = ({ s with write := jadd s.write (join Pd), buffer := (Root.writer s.buffer (join Pd) (ioChunks d0)).1 },
+      = ({ s with buffer := (Root.writer s.buffer (join Pd) (ioChunks d0)).1,
+                  write := jaddIf (Root.writer s.buffer (join Pd) (ioChunks d0)).2 s.write (join Pd) },
          (Root.writer s.buffer (join Pd) (ioChunks d0)).2) := by
     unfold copyFile
     simp only [hdest]
@@ -129,23 +150,31 @@ theorem vinv_copyFile {s : State} {D D' : Node} (V : VInv s D) (a b : Bytes) (Ps
     rw [show (!isTrue (Root.isFile (srcTree s (srcFS s a).1) (srcFS s a).2)) = false by rw [e1]; rfl]
     simp only [Bool.false_eq_true, if_false]
     unfold copy
-    simp only [hdest2, jadd_idem]
+    have hs2 : (srcFS s (srcFS s a).2).2 = join Ps := by
+      show cleanPath (cleanPath a) = join Ps
+      rw [hsrcS, hsrcS2]
+    simp only [hdest2, hs2, hnov, Bool.false_eq_true, if_false]
     unfold copier copierBuf copierFrom
-    have e2 : isTrue (Root.isFile (srcTree s1 (srcFS s1 (srcFS s a).2).1) (srcFS s1 (srcFS s a).2).2) = true := by
-      have : (srcFS s a).2 = cleanPath a := rfl
-      rw [this, r2.1]; rfl
-    have e3 : Root.readFile (srcTree s1 (srcFS s1 (srcFS s a).2).1) (srcFS s1 (srcFS s a).2).2 = .data d0 := by
-      have : (srcFS s a).2 = cleanPath a := rfl
-      rw [this, r2.2]
+    have e2 : isTrue (Root.isFile (srcTree s (srcFS s (srcFS s a).2).1) (join Ps)) = true := by
+      have := r2.1
+      have e : (srcFS s a).2 = cleanPath a := rfl
+      rw [← e, hs2] at this
+      rw [this]; rfl
+    have e3 : Root.readFile (srcTree s (srcFS s (srcFS s a).2).1) (join Ps) = .data d0 := by
+      have := r2.2
+      have e : (srcFS s a).2 = cleanPath a := rfl
+      rw [← e, hs2] at this
+      exact this
     simp only [srcTree] at e2 e3
-    simp only [s1] at e2 e3
     simp only [e2, if_true, e3]
   rw [hcf]
-  refine ⟨d0, hres, ⟨hinv, V.hr, hD', ?_, ?_⟩, hst, rfl, rfl, rfl, rfl, hwok⟩
+  refine ⟨d0, hres, ⟨hinv, V.hr, hD', ?_, ?_⟩, hst, ?_, rfl, rfl, rfl, hwok⟩
   · show Compat (abs (Root.writer s.buffer (join Pd) (ioChunks d0)).1) (abs s.remote)
     rw [hst]; exact compat_writeSt V Pd d0 hwok
   · show abs D' = overlay (abs (Root.writer s.buffer (join Pd) (ioChunks d0)).1) (abs s.remote)
     rw [hpost, hcopy, hst, V.eq, overlay_writeSt]
+  · show jaddIf (Root.writer s.buffer (join Pd) (ioChunks d0)).2 s.write (join Pd) = _
+    rw [hres]; rfl
 
 end Cache
 end Goat
